@@ -1,26 +1,705 @@
-"""Type catalogue: one abstract description per target type, rendered to Rust (harness/src/generated.rs)
-and to Coq (`ity` terms). Placeholder until the interpreter model lands."""
+"""Type catalogue (hand-written + randomly generated derive inputs), generated.rs for the harness,
+and payload / script generators."""
+import copy
+import random
+from . import common as C
+from . import types as T
+from .types import Field, Variant, Item
+
+
+class Entry:
+    def __init__(self, tid, ty, tags=()):
+        self.tid, self.ty, self.tags = tid, ty, set(tags)
+        self.items = T.items_in(ty)
+        self.rec_only = any(it.rec_only() for it in self.items)
+
+    def rust(self):
+        return T.rust(self.ty)
+
+    def coq(self):
+        return T.coq(self.ty)
 
 
 class Harness:
-    def __init__(self, binary, types):
+    def __init__(self, binary, entries):
         self.binary = binary
-        self.types = types
+        self.entries = entries
 
 
-def generated_rs(types):
+# ------------------------------------------------------------------ hand-written catalogue
+
+class Ids:
+    def __init__(self):
+        self.fn = 10
+        self.item = 0
+
+    def f(self):
+        self.fn += 1
+        return self.fn
+
+    def name(self, prefix="S"):
+        self.item += 1
+        return "%s%d" % (prefix, self.item)
+
+
+def std_types():
+    I = T.Int
+    out = []
+    out += [(t, ("scalar",)) for t in [T.Unit, T.Bool, T.F32, T.F64, T.Char, T.String]]
+    out += [(I(n), ("scalar", "int")) for n in T.INTS]
+    cont = [
+        T.Vec(I("u8")), T.Vec(T.Vec(I("i16"))), T.Option(I("u8")), T.Option(T.Vec(T.String)), T.Box(I("u8")),
+        T.Box(T.Option(T.Bool)), T.Array(3, I("u8")), T.Array(0, T.Bool), T.Array(2, T.Option(T.Bool)),
+        T.Array(4, T.Vec(I("i8"))), T.Tuple(I("u8"), T.String), T.Tuple(T.Bool, I("i8"), T.Vec(I("u8"))),
+        T.Tuple(T.Tuple(I("u8"), T.Bool), T.Option(T.String)), T.HashSet(I("u8")), T.BTreeSet(T.String),
+        T.BTreeSet(T.Tuple(I("u8"), T.Bool)), T.Map("hash", "String", I("u8")), T.Map("btree", "u32", I("u8")),
+        T.Map("btree", "i8", T.Vec(I("u8"))), T.Map("hash", "bool", T.String), T.Map("btree", "NonZeroU8", T.Bool),
+        T.Map("btree", "String", T.Vec(T.Option(I("u8")))), T.Map("hash", "u64", T.Map("btree", "String", I("i32"))),
+        T.CS("u8"), T.CS("String"), T.CS("i16"), T.CS("bool"), T.Phantom(), T.Json, T.Vec(T.Json), T.Option(T.Json),
+        T.Map("btree", "String", T.Json), T.Vec(T.Tuple(I("u8"), T.Option(T.String))), T.Vec(T.Option(T.Vec(I("u16")))),
+        T.Option(T.Option(I("u8"))), T.Vec(T.Array(2, I("u8"))), T.Tuple(T.Vec(I("u8")), T.Map("btree", "u8", I("u8"))),
+        T.Vec(T.Char), T.Option(T.Unit), T.HashSet(T.Option(T.String)), T.Vec(T.F64), T.Tuple(T.F32, T.F64),
+    ]
+    out += [(t, ("container",)) for t in cont]
+    return out
+
+
+def hand_items(ids):
+    """derived types covering every attribute at least once (the fixed part of the catalogue)"""
+    I = T.Int
+    f = ids.f
+    items = []
+
+    def S(name, fields, attrs=None):
+        it = Item(name, "struct", attrs=attrs or [], fields=fields)
+        items.append(it)
+        return it
+
+    def E(name, variants, attrs=None):
+        it = Item(name, "enum", attrs=attrs or [], variants=variants)
+        items.append(it)
+        return it
+    plain = S("HPlain", [Field("x", T.Bool), Field("y", I("u8"))])
+    S("HRenameAll", [Field("my_field", T.Bool), Field("hello_world", I("u8"), [[("rename", "goodbye_world")]]),
+                     Field("http_url2", T.String), Field("_lead", I("u8")), Field("a__b", I("u8")), Field("xY", T.Bool)],
+      [[("rename_all", "camelCase")]])
+    S("HLower", [Field("MyField", T.Bool), Field("other_Field", I("i8"))], [[("rename_all", "lowercase")]])
+    S("HDeny", [Field("doggo", T.String), Field("catto", I("u8"), [[("default", None)]])], [[("deny", None)]])
+    S("HDenyFn", [Field("doggo", T.String), Field("sk", I("u8"), [[("skip",)]]), Field("catto", T.Option(I("u8")))],
+      [[("deny", f())], [("where_uerr",)]])
+    S("HDefaults", [Field("a", I("u8"), [[("default", None)]]), Field("b", T.String, [[("default", ('String::from("dflt")', "dflt"))]]),
+                    Field("c", T.Option(I("u8"))), Field("d", T.Vec(I("u8")), [[("default", ("vec![1, 2]", {"l": [{"i": "1"}, {"i": "2"}]}))]]),
+                    Field("e", I("i32"), [[("skip",)]]), Field("g", T.Bool, [[("skip",), ("default", ("true", True))]])])
+    S("HSkipMid", [Field("first", I("u8")), Field("skipped", T.String, [[("skip",)]]), Field("last", T.Bool),
+                   Field("sk2", T.Vec(I("u8")), [[("skip",)], [("default", ("vec![7]", {"l": [{"i": "7"}]}))]])],
+      [[("deny", None)]])
+    S("HMissing", [Field("a", I("u8"), [[("missing", f())]]), Field("b", T.String), Field("c", T.Bool, [[("missing", f())]])],
+      [[("where_uerr",)]])
+    m1, m2, m3 = f(), f(), f()
+    S("HMap", [Field("a", T.W(I("u8")), [[("map", m1, I("u8"))]]),
+               Field("b", T.W(T.String), [[("map", m2, T.String), ("default", None)]]),
+               Field("c", T.W(T.Option(I("u8"))), [[("skip",), ("map", m3, T.Option(I("u8")))]]),
+               Field("d", T.W(I("i16")), [[("default", ("crate::user::w(5)", {"i": "5"})), ("map", f(), I("i16"))]])])
+    f1, f2, f3, f4 = f(), f(), f(), f()
+    S("HFrom", [Field("a", T.W(T.String), [[("from", T.String, f1, False)]]),
+                Field("b", T.W(I("u8")), [[("from", I("u8"), f2, True)]]),
+                Field("c", T.W(T.Vec(I("u8"))), [[("try_from", T.Vec(I("u8")), f3, False)]]),
+                Field("d", T.W(I("i32")), [[("try_from", I("i32"), f4, True)], [("default", None)]]),
+                Field("e", T.W(T.String), [[("from", T.String, f(), False), ("map", f(), T.String)]])])
+    v1 = f()
+    S("HValidate", [Field("a", I("u8")), Field("b", T.String)], [[("validate", v1)]])
+    g1, g2 = f(), f()
+    S("HFieldErr", [Field("a", I("u8"), [[("error", 1)]]), Field("b", T.W(T.String), [[("error", 1), ("try_from", T.String, g1, False)]]),
+                    Field("c", T.Vec(I("u8"))), Field("d", T.W(I("u8")), [[("try_from", I("u8"), g2, False)]])],
+      [[("error", 0)]])
+    c1 = f()
+    items.append(Item("HCFrom", "newtype_from", attrs=[[("from", T.Vec(I("u8")), c1, False)]]))
+    c2, c3 = f(), f()
+    items.append(Item("HCTryFrom", "newtype_from", attrs=[[("try_from", T.String, c2, True)], [("validate", c3)]]))
+    E("HUnitEnum", [Variant("Alpha"), Variant("BetaGamma"), Variant("delta", attrs=[[("rename", "D")]])])
+    E("HUnitEnumCamel", [Variant("AlphaOne"), Variant("HTTPServer"), Variant("X2y")], [[("rename_all", "camelCase")]])
+    E("HTagged", [Variant("A"), Variant("B", [Field("x", T.Bool), Field("y", I("u8"))]),
+                  Variant("See", [Field("my_x", T.String), Field("y", T.Vec(I("u8")), [[("default", None)]])],
+                          attrs=[[("rename", "c"), ("rename_all", "camelCase")]])],
+      [[("tag", "type")]])
+    E("HTaggedDeny", [Variant("One", [Field("a_b", I("u8"))]), Variant("Two", [Field("a_b", T.String), Field("type_", T.Bool, [[("rename", "kind")]])]),
+                      Variant("Three")],
+      [[("tag", "t"), ("rename_all", "lowercase")], [("deny", None)]])
+    S("HNested", [Field("inner", T.It(plain)), Field("list", T.Vec(T.It(plain))), Field("opt", T.Option(T.It(plain))),
+                  Field("m", T.Map("btree", "String", T.It(plain)), [[("default", None)]])], [[("deny", None)]])
+    S("HEmpty", [])
+    S("HEmptyDeny", [], [[("deny", None)]])
+    return items
+
+
+# ------------------------------------------------------------------ random derive inputs
+
+IDENT_POOL = ["a", "b", "x", "id", "name", "my_field", "hello_world", "http_url2", "_lead", "a__b", "xY", "fooBar", "f1",
+              "is_ok", "trail_", "v2x", "ABc", "kind", "value", "data2d", "r", "snake_case_name", "MAX", "i18n_key"]
+VARIANT_POOL = ["A", "B", "Alpha", "BetaGamma", "HTTPServer", "X2y", "Unit", "WithData", "Other", "V1", "Foo_bar", "C3po"]
+RENAMES = ["renamed", "x", "type", "goodbye_world", "ID", "a.b", "weird key", "myField", "é"]
+
+
+def base_types(rng, items, allow_items=True, depth=0):
+    I = T.Int
+    pool = [I("u8"), I("i16"), I("u32"), I("i64"), T.Bool, T.String, T.Option(I("u8")), T.Vec(I("u8")), T.Option(T.String),
+            T.Char, T.F64, T.Unit, T.Vec(T.Option(T.Bool)), T.Tuple(I("u8"), T.Bool), T.Map("btree", "String", I("u8")),
+            T.Map("hash", "u32", T.String), T.HashSet(I("u8")), T.Box(I("i8")), T.Array(2, I("u8")), T.CS("u8"),
+            I("NonZeroU8"), T.Json, T.Vec(T.String), T.Option(T.Vec(I("u16")))]
+    if allow_items and items and rng.random() < 0.35:
+        it = rng.choice(items)
+        w = rng.choice([lambda x: x, T.Vec, T.Option, lambda x: T.Map("btree", "String", x), lambda x: T.Tuple(I("u8"), x), T.Box])
+        return w(T.It(it))
+    return rng.choice(pool)
+
+
+def literal_for(t, rng):
+    """(rust expression, out wire) of a non-default literal of the type, or None"""
+    k = t[0]
+    if k == "w":
+        inner = literal_for(t[1], rng)
+        return ("crate::user::w(%s)" % inner[0], inner[1]) if inner else None
+    if k == "int" and not t[1].startswith("NonZero"):
+        lo, hi = T.int_range(t[1])
+        v = rng.choice([1, 7, 42, min(hi, 200)])
+        return ("%d" % v, {"i": str(v)})
+    if k == "bool":
+        return ("true", True)
+    if k == "string":
+        s = rng.choice(["dflt", "x", ""])
+        return ('String::from("%s")' % s, s)
+    if k == "option":
+        inner = literal_for(t[1], rng)
+        if inner and rng.random() < 0.6:
+            return ("Some(%s)" % inner[0], {"some": inner[1]})
+        return ("None", {"none": 0})
+    if k == "vec":
+        inner = literal_for(t[1], rng)
+        if inner:
+            return ("vec![%s]" % inner[0], {"l": [inner[1]]})
+        return ("vec![]", {"l": []})
+    return None
+
+
+def has_default(t):
+    k = t[0]
+    if k == "int":
+        return not t[1].startswith("NonZero")
+    if k in ("unit", "bool", "f32", "f64", "char", "string", "phantom", "json", "vec", "hashset", "btreeset", "map", "option", "cs"):
+        return True
+    if k == "tuple":
+        return all(has_default(x) for x in t[1:])
+    if k == "box":
+        return has_default(t[1])
+    if k == "w":
+        return has_default(t[1])
+    return False
+
+
+def rand_fields(rng, ids, items, n, used=None):
+    fields = []
+    idents = rng.sample(IDENT_POOL, n)
+    for ident in idents:
+        base = base_types(rng, items)
+        attrs = []
+        declared = base
+        r = rng.random
+        conv = None
+        if r() < 0.12:
+            fn = ids.f()
+            conv = ("from", base, fn, r() < 0.4 and clonable(base))
+            declared = T.W(base)
+        elif r() < 0.14:
+            fn = ids.f()
+            conv = ("try_from", base, fn, r() < 0.4 and clonable(base))
+            declared = T.W(base)
+        if conv:
+            attrs.append(conv)
+        if r() < 0.12:
+            if declared[0] != "w":
+                declared = T.W(declared)
+            attrs.append(("map", ids.f(), declared[1]))
+        skipped = False
+        if r() < 0.12 and has_default(declared):
+            attrs.append(("skip",))
+            skipped = True
+        if has_default(declared) and r() < 0.3:
+            lit = literal_for(declared, rng) if r() < 0.5 else None
+            attrs.append(("default", lit))
+        elif skipped and r() < 0.3:
+            lit = literal_for(declared, rng)
+            if lit:
+                attrs.append(("default", lit))
+        if r() < 0.15:
+            attrs.append(("rename", rng.choice(RENAMES) + rng.choice(["", "", "2"])))
+        if r() < 0.12 and not skipped:
+            attrs.append(("missing", ids.f()))
+        rng.shuffle(attrs)
+        # spread over one or several #[deserr(..)] attributes
+        groups = []
+        for a in attrs:
+            if groups and r() < 0.5:
+                groups[-1].append(a)
+            else:
+                groups.append([a])
+        fields.append(Field(ident, declared, groups))
+    # distinct effective keys are a hypothesis of C04/C07: regenerate renames that collide
+    return fields
+
+
+def clonable(t):
+    return not (t[0] == "item" or any(isinstance(x, tuple) and not clonable(x) for x in t[1:]))
+
+
+def rand_item(rng, ids, items):
+    r = rng.random
+    name = ids.name("G")
+    cattrs = []
+    if r() < 0.4:
+        cattrs.append(("rename_all", rng.choice(["camelCase", "lowercase"])))
+    if r() < 0.35:
+        cattrs.append(("deny", None if r() < 0.6 else ids.f()))
+    if r() < 0.15:
+        cattrs.append(("validate", ids.f()))
+    if r() < 0.6:
+        fields = rand_fields(rng, ids, items, rng.choice([0, 1, 2, 2, 3, 3, 4, 5, 6]))
+        it = Item(name, "struct", fields=fields)
+    else:
+        nv = rng.choice([1, 2, 3, 4])
+        idents = rng.sample(VARIANT_POOL, nv)
+        unit_only = r() < 0.35
+        variants = []
+        for vi in idents:
+            va = []
+            if r() < 0.25:
+                va.append(("rename", rng.choice(["v", "Renamed", "alpha", "x-y"]) + vi[:1]))
+            if r() < 0.3 and not unit_only:
+                va.append(("rename_all", rng.choice(["camelCase", "lowercase"])))
+            vg = [va] if va else []
+            if unit_only or r() < 0.3:
+                variants.append(Variant(vi, None, vg))
+            else:
+                variants.append(Variant(vi, rand_fields(rng, ids, items, rng.choice([0, 1, 2, 3])), vg))
+        if not unit_only:
+            cattrs.append(("tag", rng.choice(["type", "t", "kind", "my_tag"])))
+        else:
+            cattrs = [a for a in cattrs if a[0] != "deny"]
+        it = Item(name, "enum", variants=variants)
+    rng.shuffle(cattrs)
+    groups = []
+    for a in cattrs:
+        if groups and r() < 0.5:
+            groups[-1].append(a)
+        else:
+            groups.append([a])
+    it.attrs = groups
+    return it
+
+
+def uses_user_errors(it, seen=None):
+    """does deserializing the item (transitively) hand a UErr to the error type"""
+    for a in it.flat():
+        if a[0] in ("try_from", "validate") or (a[0] == "deny" and a[1] is not None):
+            return True
+    for f in it.all_fields():
+        for a in f.flat():
+            if a[0] in ("try_from", "missing"):
+                return True
+    for s in it.subtypes():
+        for sub in T.items_in(s):
+            if sub is not it and uses_user_errors(sub):
+                return True
+    return False
+
+
+def finalize_item(it):
+    """add the bounds rustc needs: fixed error type when a child has one, MergeWithError<UErr> otherwise"""
+    child_rec = any(sub.rec_only() for s in it.subtypes() for sub in T.items_in(s) if sub is not it)
+    field_err = any(a[0] == "error" for f in it.all_fields() for a in f.flat())
+    if (child_rec or field_err) and not it.rec_only():
+        it.attrs.append([("error", 0)])
+    if uses_user_errors(it) and not it.rec_only() and not any(a[0] == "where_uerr" for a in it.flat()):
+        it.attrs.append([("where_uerr",)])
+    return it
+
+
+# ------------------------------------------------------------------ catalogue + generated.rs
+
+def make_entries(type_seed, n_random):
+    ids = Ids()
+    entries = []
+    for t, tags in std_types():
+        entries.append((t, tags))
+    hand = [finalize_item(it) for it in hand_items(ids)]
+    for it in hand:
+        entries.append((T.It(it), ("derived", "hand")))
+    rng = random.Random("types-%d" % type_seed)
+    gen = []
+    for _ in range(n_random):
+        it = finalize_item(rand_item(rng, ids, gen[-6:] + hand[:1]))
+        gen.append(it)
+        entries.append((T.It(it), ("derived", "random")))
+    # a few std containers around derived items
+    for it in (hand[:3] + gen[:4]):
+        entries.append((T.Vec(T.It(it)), ("container", "derived")))
+        entries.append((T.Map("btree", "String", T.Option(T.It(it))), ("container", "derived")))
+    return [Entry(i, t, tags) for i, (t, tags) in enumerate(entries)]
+
+
+def generated_rs(entries):
+    items = []
+    for e in entries:
+        for it in e.items:
+            if it not in items:
+                items.append(it)
+    src = ["#![allow(non_snake_case, non_camel_case_types, dead_code, unused_imports)]",
+           "use crate::out::ToOut;", "use crate::Case;", "use serde_json::{json, Value as J};", ""]
+    for it in items:
+        src.append(it.rust_src())
     arms = []
-    for i, t in enumerate(types):
-        arms.append("        %d => crate::run_any::<%s>(c)," % (i, t))
-    return ("use crate::Case;\nuse serde_json::{json, Value as J};\n"
-            "pub fn dispatch(tid: u32, c: &Case) -> J {\n    match tid {\n" + "\n".join(arms)
-            + "\n        _ => json!({\"unknown_tid\": tid}),\n    }\n}\n")
+    for e in entries:
+        fn = "crate::run_rec" if e.rec_only else "crate::run_any"
+        arms.append("        %d => %s::<%s>(c)," % (e.tid, fn, e.rust()))
+    src.append("pub fn dispatch(tid: u32, c: &Case) -> J {\n    match tid {\n" + "\n".join(arms)
+               + "\n        _ => json!({\"unknown_tid\": tid}),\n    }\n}\n")
+    return "\n".join(src)
 
 
 def build(ctx, mod):
-    from . import common as C
-    types = ["Vec<u8>"]
-    binary, secs = C.build_harness(generated_rs(types))
+    tier = getattr(ctx, "tier", "quick")
+    type_seed = 0 if tier == "quick" else ctx.seed
+    n_random = 40 if tier == "quick" else 160
+    entries = make_entries(type_seed, n_random)
+    binary, secs = C.build_harness(generated_rs(entries))
     ctx.coverage["harness_build_s"] = round(secs, 1)
     ctx.coverage["repo_hash"] = C.repo_hash()
-    return Harness(binary, types)
+    ctx.coverage["catalogue"] = {"types": len(entries), "derived_random": n_random, "type_seed": type_seed}
+    return Harness(binary, entries)
+
+
+# ------------------------------------------------------------------ payloads
+
+def py_camel(ident):
+    """convert_case 0.6 Camel on ASCII identifiers (only used to aim payload keys; never to judge)"""
+    words, cur = [], ""
+    n = len(ident)
+    for i, d in enumerate(ident):
+        if d in "_- ":
+            words.append(cur); cur = ""
+            continue
+        c = ident[i - 1] if i > 0 else None
+        e = ident[i + 1] if i + 1 < n else None
+        split = False
+        if c is not None and c not in "_- ":
+            lo, up, dg = str.islower, str.isupper, str.isdigit
+            split = ((lo(c) and up(d)) or (up(c) and dg(d)) or (dg(c) and up(d)) or (dg(c) and lo(d)) or (lo(c) and dg(d))
+                     or (up(c) and up(d) and e is not None and lo(e)))
+        if split:
+            words.append(cur); cur = d
+        else:
+            cur += d
+    words.append(cur)
+    words = [w for w in words if w]
+    if not words:
+        return ""
+    return words[0].lower() + "".join(w[0].upper() + w[1:].lower() for w in words[1:])
+
+
+def eff_key(ident, rename, ra):
+    if rename is not None:
+        return rename
+    if ra == "camelCase":
+        return py_camel(ident)
+    if ra == "lowercase":
+        return ident.lower()
+    return ident
+
+
+def field_keys(fields, ra):
+    out = []
+    for f in fields:
+        if f.skipped():
+            continue
+        rn = f.get("rename")
+        out.append((f, eff_key(f.ident, rn[1] if rn else None, ra)))
+    return out
+
+
+def item_ra(it):
+    a = it.get("rename_all")
+    return a[1] if a else None
+
+
+def variant_key(it, v):
+    rn = [a for a in v.flat() if a[0] == "rename"]
+    return eff_key(v.ident, rn[0][1] if rn else None, item_ra(it))
+
+
+def variant_ra(v):
+    ra = [a for a in v.flat() if a[0] == "rename_all"]
+    return ra[0][1] if ra else None
+
+
+def wi(n): return {"i": str(n)} if n >= 0 else {"n": str(n)}
+
+
+def gen_int(name, rng, valid=True):
+    lo, hi = T.int_range(name)
+    lo, hi = max(lo, -(1 << 63)), min(hi, (1 << 64) - 1)
+    nz = name.startswith("NonZero")
+    if valid:
+        v = rng.choice([0, 1, 2, 3, 7, 11, 42, 100, hi, lo, rng.randint(lo, hi)])
+        if nz and v == 0:
+            v = 1
+        return wi(v)
+    return wi(rng.choice([hi + 1 if hi < (1 << 64) - 1 else 0, lo - 1 if lo > -(1 << 63) else 0, 0 if nz else 1000000, -1000000]))
+
+
+def gen_str(rng, ok=True):
+    pool = ["", "a", "bork", "jorts", "x,y", "12", "hello world", "é", "ab", "!bad", "doggo", "catto", "1,2,3", ",", "true"]
+    return rng.choice(pool)
+
+
+def gen_json(rng, depth=0):
+    r = rng.random()
+    if depth > 2 or r < 0.5:
+        return rng.choice([None, True, False, wi(rng.choice([0, 1, 42, 2**64 - 1])), wi(-rng.choice([1, 5, 2**63])),
+                           {"f": "%016x" % rng.choice([0x3ff8000000000000, 0x8000000000000000, 0x7fefffffffffffff, 1, 0x4340000000000001])},
+                           gen_str(rng)])
+    if r < 0.75:
+        return [gen_json(rng, depth + 1) for _ in range(rng.randint(0, 3))]
+    keys = rng.sample(["a", "b", "k", "z", "The", "the", "0"], rng.randint(0, 3))
+    return {"m": [[k, gen_json(rng, depth + 1)] for k in keys]}
+
+
+def gen_key(k, rng, valid=True):
+    if k == "String":
+        return gen_str(rng)
+    if k == "bool":
+        return rng.choice(["true", "false"]) if valid else rng.choice(["True", "1", "", "yes"])
+    lo, hi = T.int_range(k)
+    if valid:
+        v = rng.choice([1, 2, 3, 7, 42, min(hi, 255), max(lo, -5)])
+        if k.startswith("NonZero") and v == 0:
+            v = 1
+        s = str(v)
+        return rng.choice([s, s, s, "+" + s if v >= 0 else s, "0" + s if v >= 0 else s])
+    return rng.choice(["", "a", "-", "+", "1.0", " 1", str(hi + 1), str(lo - 1), "0" if k.startswith("NonZero") else "x", "-0" if lo == 0 else "--1", "1_0"])
+
+
+def gen_valid(t, rng, depth=0):
+    k = t[0]
+    if k == "int": return gen_int(t[1], rng)
+    if k == "unit": return None
+    if k == "bool": return rng.choice([True, False])
+    if k in ("f32", "f64"):
+        return rng.choice([wi(3), wi(-7), wi(2**53 + 1), wi(16777217), {"f": "3ff8000000000000"}, {"f": "47efffffe0000001"},
+                           {"f": "0000000000000001"}, {"f": "7fefffffffffffff"}, {"f": "8000000000000000"}])
+    if k == "char": return rng.choice(["a", "é", "€", "😀", "Z"])
+    if k == "string": return gen_str(rng)
+    if k == "json": return gen_json(rng)
+    if k == "phantom": return rng.choice([None, wi(1), "x", []])
+    if k in ("vec", "hashset", "btreeset"):
+        n = rng.choice([0, 1, 2, 3, 4]) if depth < 3 else 0
+        return [gen_valid(t[1], rng, depth + 1) for _ in range(n)]
+    if k == "array": return [gen_valid(t[2], rng, depth + 1) for _ in range(t[1])]
+    if k == "tuple": return [gen_valid(x, rng, depth + 1) for x in t[1:]]
+    if k == "map":
+        n = rng.choice([0, 1, 2, 3])
+        seen, ms = set(), []
+        for _ in range(n):
+            key = gen_key(t[2], rng)
+            if key not in seen:
+                seen.add(key)
+                ms.append([key, gen_valid(t[3], rng, depth + 1)])
+        return {"m": ms}
+    if k == "option":
+        return None if rng.random() < 0.3 else gen_valid(t[1], rng, depth + 1)
+    if k in ("box", "w"): return gen_valid(t[1], rng, depth + 1)
+    if k == "cs":
+        n = rng.choice([0, 1, 2, 3])
+        return ",".join(gen_key(t[1], rng) if t[1] != "String" else rng.choice(["a", "bc", "d e"]) for _ in range(n))
+    if k == "item":
+        return gen_item_valid(t[1], rng, depth)
+    raise ValueError(t)
+
+
+def gen_fields_valid(fields, ra, rng, depth):
+    ms = []
+    for f, key in field_keys(fields, ra):
+        optional = f.has("default")
+        if optional and rng.random() < 0.5:
+            continue
+        ms.append([key, gen_valid(f.deser_ty(), rng, depth + 1)])
+    rng.shuffle(ms)
+    return ms
+
+
+def gen_item_valid(it, rng, depth):
+    conv = it.get("from") or it.get("try_from")
+    if conv:
+        return gen_valid(conv[1], rng, depth + 1)
+    if it.kind == "struct":
+        return {"m": gen_fields_valid(it.fields, item_ra(it), rng, depth)}
+    if it.kind == "enum":
+        v = rng.choice(it.variants)
+        tag = it.get("tag")
+        if tag is None:
+            return variant_key(it, v)
+        ms = gen_fields_valid(v.fields or [], variant_ra(v), rng, depth)
+        ms.insert(rng.randint(0, len(ms)), [tag[1], variant_key(it, v)])
+        return {"m": ms}
+    return None
+
+
+WRONG = [None, True, {"i": "1"}, {"i": "1000"}, {"n": "-3"}, {"f": "3ff8000000000000"}, "str", [], [{"i": "1"}], {"m": []}, {"m": [["a", None]]},
+         {"i": "18446744073709551615"}, {"n": "-9223372036854775808"}, "!bad", {"i": "3"}, [{"i": "1"}, {"i": "2"}, {"i": "3"}]]
+
+
+def positions(p, path=()):
+    """all positions of a payload tree"""
+    yield path
+    if isinstance(p, list):
+        for i, x in enumerate(p):
+            yield from positions(x, path + (i,))
+    elif isinstance(p, dict) and "m" in p:
+        for i, (k, x) in enumerate(p["m"]):
+            yield from positions(x, path + (("m", i),))
+
+
+def get_at(p, path):
+    for s in path:
+        p = p["m"][s[1]][1] if isinstance(s, tuple) else p[s]
+    return p
+
+
+def set_at(p, path, v):
+    if not path:
+        return v
+    p = copy.deepcopy(p)
+    cur = p
+    for s in path[:-1]:
+        cur = cur["m"][s[1]][1] if isinstance(s, tuple) else cur[s]
+    s = path[-1]
+    if isinstance(s, tuple):
+        cur["m"][s[1]][1] = v
+    else:
+        cur[s] = v
+    return p
+
+
+def near_miss(key, rng):
+    if not key:
+        return "x"
+    ops = [key.upper(), key.lower(), key + "s", key[:-1], key[0] + key, key.replace("_", ""), key.capitalize(), key[1:] + key[:1]]
+    ops = [o for o in ops if o != key]
+    return rng.choice(ops) if ops else key + "x"
+
+
+def mutate_once(p, rng, extra_keys=()):
+    pos = list(positions(p))
+    path = rng.choice(pos)
+    cur = get_at(p, path)
+    ops = ["wrong", "wrong", "null"]
+    if isinstance(cur, list):
+        ops += ["drop_elem", "add_elem", "add_elem"]
+    if isinstance(cur, dict) and "m" in cur:
+        ops += ["del_member", "del_member", "extra_key", "extra_key", "near_key", "dup_member", "shuffle", "rename_key"]
+    if isinstance(cur, dict) and ("i" in cur or "n" in cur):
+        ops += ["range", "range"]
+    if isinstance(cur, str):
+        ops += ["str", "str"]
+    op = rng.choice(ops)
+    if op == "wrong":
+        return set_at(p, path, copy.deepcopy(rng.choice(WRONG)))
+    if op == "null":
+        return set_at(p, path, None)
+    if op == "range":
+        return set_at(p, path, wi(rng.choice([255, 256, 65536, 2**31, 2**32, 2**63, 2**64 - 1, -1, -129, -32769, -2**31 - 1, -2**63, 0, 127, 128, 1000, 3, 7])))
+    if op == "str":
+        return set_at(p, path, rng.choice(["", "ab", "!x", "é", "a,b,,c", "1,x", "256", "Alpha", "alpha", near_miss(cur, rng)]))
+    new = copy.deepcopy(cur)
+    if op == "drop_elem" and new:
+        del new[rng.randrange(len(new))]
+    elif op == "add_elem":
+        new.insert(rng.randint(0, len(new)), copy.deepcopy(rng.choice(WRONG + (new[:1] if new else []))))
+    elif op == "del_member" and new["m"]:
+        del new["m"][rng.randrange(len(new["m"]))]
+    elif op == "extra_key":
+        pool = list(extra_keys) + ["extra", "zzz", "type", "x", "0", ""]
+        new["m"].insert(rng.randint(0, len(new["m"])), [rng.choice(pool), copy.deepcopy(rng.choice(WRONG))])
+    elif op == "near_key" and new["m"]:
+        k = rng.choice(new["m"])[0]
+        new["m"].insert(rng.randint(0, len(new["m"])), [near_miss(k, rng), copy.deepcopy(rng.choice(WRONG))])
+    elif op == "rename_key" and new["m"]:
+        i = rng.randrange(len(new["m"]))
+        new["m"][i][0] = near_miss(new["m"][i][0], rng)
+    elif op == "dup_member" and new["m"]:
+        k, v = rng.choice(new["m"])
+        new["m"].insert(rng.randint(0, len(new["m"])), [k, copy.deepcopy(rng.choice(WRONG + [v]))])
+    elif op == "shuffle":
+        rng.shuffle(new["m"])
+    return set_at(p, path, new)
+
+
+def has_dup_keys(p):
+    if isinstance(p, list):
+        return any(has_dup_keys(x) for x in p)
+    if isinstance(p, dict) and "m" in p:
+        ks = [k for k, _ in p["m"]]
+        return len(set(ks)) != len(ks) or any(has_dup_keys(v) for _, v in p["m"])
+    return False
+
+
+def is_json_doc(p):
+    """can serde_json hold it with the same classes (see harness ov_to_json)"""
+    if isinstance(p, list):
+        return all(is_json_doc(x) for x in p)
+    if isinstance(p, dict):
+        if "m" in p:
+            ks = [k for k, _ in p["m"]]
+            return len(set(ks)) == len(ks) and all(is_json_doc(v) for _, v in p["m"])
+        if "n" in p:
+            return int(p["n"]) < 0
+        if "f" in p:
+            b = int(p["f"], 16)
+            return (b >> 52) & 0x7ff != 0x7ff
+    return True
+
+
+def skipped_names(t):
+    out = []
+    for it in T.items_in(t):
+        for f in it.all_fields():
+            if f.skipped():
+                out.append(f.ident)
+            out.append(f.ident)
+    return out
+
+
+def gen_payloads(entry, rng, n, max_faults=3):
+    """n payloads for a type: valid instances with 0..max_faults mutations, plus shape-blind values"""
+    out = []
+    extra = skipped_names(entry.ty)
+    for i in range(n):
+        if rng.random() < 0.08:
+            out.append((copy.deepcopy(rng.choice(WRONG)) if rng.random() < 0.7 else gen_json(rng), -1))
+            continue
+        p = gen_valid(entry.ty, rng)
+        k = rng.choice([0, 0, 1, 1, 1, 2, 2, 3, max_faults])
+        for _ in range(k):
+            p = mutate_once(p, rng, extra)
+        out.append((p, k))
+    return out
+
+
+def gen_scripts(rng, ncalls_hint=6):
+    """script kinds: all-Continue, all-Break, k Continues then Break, random"""
+    kind = rng.choice(["cont", "cont", "break", "switch", "switch", "random"])
+    if kind == "cont":
+        return ([], True, kind)
+    if kind == "break":
+        return ([], False, kind)
+    if kind == "switch":
+        return ([True] * rng.randint(0, ncalls_hint), False, kind)
+    return ([rng.random() < 0.6 for _ in range(rng.randint(1, 12))], rng.random() < 0.5, kind)
